@@ -258,7 +258,7 @@ func observeObject(codec string, x val) rtObs {
 	if isErr(enc) {
 		o.encErr = true
 	} else {
-		o.enc = canonObj(enc)
+		o.enc = rawCanon(enc)
 		o.encRaw, _ = object.AsBytes(enc)
 		dec, pan := safeCall(func() object.Object { return builtins.Decode(bg, enc, name) })
 		if pan != "" {
@@ -284,7 +284,7 @@ func observeObject(codec string, x val) rtObs {
 		o.mErr = true
 		return o
 	}
-	o.m = canonObj(m)
+	o.m = rawCanon(m)
 	d, pan := safeCall(func() object.Object { return modjson.Unmarshal(bg, m) })
 	if pan != "" {
 		o.pan = "json.unmarshal: " + pan
@@ -335,7 +335,7 @@ func decodeRtItems(codec string, res []object.Object, pan []string) rtObs {
 	if isErr(res[0]) {
 		o.encErr = true
 	} else {
-		o.enc = canonObj(res[0])
+		o.enc = rawCanon(res[0])
 		if isErr(res[1]) {
 			o.decErr = true
 		} else {
@@ -347,7 +347,7 @@ func decodeRtItems(codec string, res []object.Object, pan []string) rtObs {
 		if isErr(res[2]) {
 			o.mErr = true
 		} else {
-			o.m = canonObj(res[2])
+			o.m = rawCanon(res[2])
 			if isErr(res[3]) {
 				o.mDecErr = true
 			} else {
@@ -369,37 +369,57 @@ type ccase struct {
 // judgeRT applies the oracles of C1 / C3(encode side) to one observation.
 func judgeRT(r *ev.Run, route, codec string, x val, o rtObs) (outcome string) {
 	cl := class(x)
-	cs := ccase{"C1", route, codec, x.tok(), ""}
-	desc := func() string { return fmt.Sprintf("%s: codec %s, value %s", route, codec, ev.Clip(x.tok(), 200)) }
+	rk := 1
+	if route == "object" {
+		rk = 0
+	}
+	sz := x.size()
+	// the witness text is built only if this case can become the smallest one for its signature
+	rep := func(sig string, tail func() (text, observed, expected string)) {
+		col.Lazy(sig, rk, sz, func() (string, any, string, string) {
+			t, ob, ex := tail()
+			return fmt.Sprintf("%s: codec %s, value %s", route, codec, ev.Clip(x.tok(), 200)) + t, ccase{"C1", route, codec, x.tok(), ""}, ob, ex
+		})
+	}
 	if o.pan != "" {
-		col.Report("panic:codec:"+codec+":"+cl, desc()+" -> Go panic "+ev.Clip(o.pan, 160), cs, o.pan, "an error value")
-		return "panic"
+		rep("panic:codec:"+codec+":"+cl, func() (string, string, string) {
+			return " -> Go panic " + ev.Clip(o.pan, 160), o.pan, "an error value"
+		})
+		return cl + "|panic"
 	}
 	spec := codecSpecs[codec]
 	accepted := codec != "json" || (jsonRepresentable(x) && x.K != 'n')
 	switch {
 	case o.encErr && accepted:
-		col.Report("encode-rejects:"+codec+":"+cl, desc()+": encode() fails on a value of the codec's domain", cs, "error", "encoded text")
+		rep("encode-rejects:"+codec+":"+cl, func() (string, string, string) {
+			return ": encode() fails on a value of the codec's domain", "error", "encoded text"
+		})
 		outcome = "enc-rejected!"
 	case o.encErr:
 		outcome = "enc-rejected"
 	default:
 		if spec.goEncode != nil {
-			if w, ok := spec.goEncode(x.bytes()); ok && o.enc != canonGo(w) {
-				col.Report("mismatch:encode:"+codec, desc()+": encode() = "+ev.Clip(o.enc, 120)+", Go's encoder gives "+ev.Clip(canonGo(w), 120), cs, o.enc, canonGo(w))
+			if w, ok := spec.goEncode(x.bytes()); ok && o.enc != "string:"+w {
+				rep("mismatch:encode:"+codec, func() (string, string, string) {
+					return ": encode() = " + qc(o.enc) + ", Go's encoder gives " + qc("string:"+w), qc(o.enc), qc("string:" + w)
+				})
 			}
 		}
 		if codec == "gzip" && route == "object" {
 			if b, err := gunzip(o.encRaw); err != nil || !bytes.Equal(b, x.bytes()) {
-				col.Report("mismatch:encode:gzip", desc()+": Go's gzip reader does not give the input back", cs, fmt.Sprintf("%x %v", b, err), fmt.Sprintf("%x", x.bytes()))
+				rep("mismatch:encode:gzip", func() (string, string, string) {
+					return ": Go's gzip reader does not give the input back", fmt.Sprintf("%x %v", b, err), fmt.Sprintf("%x", x.bytes())
+				})
 			}
 		}
 		switch {
 		case o.decErr:
-			col.Report("roundtrip:"+codec+":decode-error:"+cl, desc()+": decode(encode(x)) fails", cs, "error", "x")
+			rep("roundtrip:"+codec+":decode-error:"+cl, func() (string, string, string) { return ": decode(encode(x)) fails", "error", "x" })
 			outcome = "dec-error"
 		case !o.eq && (codec != "json" || jsonRepresentable(x)):
-			col.Report("roundtrip:"+codec+":"+cl, desc()+": decode(encode(x)) != x by risor's Equals (encoded: "+ev.Clip(o.enc, 120)+")", cs, "not equal", "equal")
+			rep("roundtrip:"+codec+":"+cl, func() (string, string, string) {
+				return ": decode(encode(x)) != x by risor's Equals (encoded: " + qc(o.enc) + ")", "not equal", "equal"
+			})
 			outcome = "rt-differs"
 		case !o.eq:
 			outcome = "rt-differs-outside-domain"
@@ -407,16 +427,21 @@ func judgeRT(r *ev.Run, route, codec string, x val, o rtObs) (outcome string) {
 			outcome = "rt-ok"
 		}
 	}
+	outcome = cl + "|" + outcome
 	if !o.modUsed {
 		return outcome
 	}
 	// C3 encode side: the module and the codec must accept the same values and produce the same text
 	switch {
 	case o.mErr != o.encErr:
-		col.Report("json-agree:encode:"+cl, fmt.Sprintf("%s: encode(x,\"json\") %s but json.marshal(x) %s", desc(), okErr(o.encErr, o.enc), okErr(o.mErr, o.m)), cs, okErr(o.encErr, o.enc), okErr(o.mErr, o.m))
+		rep("json-agree:encode:"+cl, func() (string, string, string) {
+			return fmt.Sprintf(": encode(x,\"json\") %s but json.marshal(x) %s", okErr(o.encErr, o.enc), okErr(o.mErr, o.m)), okErr(o.encErr, o.enc), okErr(o.mErr, o.m)
+		})
 		outcome += "|agree-accept!"
 	case !o.mErr && o.m != o.enc:
-		col.Report("json-agree:encode:"+cl, fmt.Sprintf("%s: encode(x,\"json\") = %s but json.marshal(x) = %s", desc(), ev.Clip(o.enc, 120), ev.Clip(o.m, 120)), cs, o.enc, o.m)
+		rep("json-agree:encode:"+cl, func() (string, string, string) {
+			return fmt.Sprintf(": encode(x,\"json\") = %s but json.marshal(x) = %s", qc(o.enc), qc(o.m)), qc(o.enc), qc(o.m)
+		})
 		outcome += "|agree-text!"
 	default:
 		outcome += "|agree"
@@ -424,19 +449,33 @@ func judgeRT(r *ev.Run, route, codec string, x val, o rtObs) (outcome string) {
 	if !o.mErr {
 		switch {
 		case o.mDecErr:
-			col.Report("roundtrip:json.module:decode-error:"+cl, desc()+": json.unmarshal(json.marshal(x)) fails", cs, "error", "x")
+			rep("roundtrip:json.module:decode-error:"+cl, func() (string, string, string) {
+				return ": json.unmarshal(json.marshal(x)) fails", "error", "x"
+			})
 		case !o.mEq && jsonRepresentable(x):
-			col.Report("roundtrip:json.module:"+cl, desc()+": json.unmarshal(json.marshal(x)) != x (text "+ev.Clip(o.m, 120)+")", cs, "not equal", "equal")
+			rep("roundtrip:json.module:"+cl, func() (string, string, string) {
+				return ": json.unmarshal(json.marshal(x)) != x (text " + qc(o.m) + ")", "not equal", "equal"
+			})
 		}
 	}
 	return outcome
 }
 
+// rawCanon is canonObj without quoting for strings (cheap; quoted only when shown).
+func rawCanon(o object.Object) string {
+	if s, ok := o.(*object.String); ok {
+		return "string:" + s.Value()
+	}
+	return canonObj(o)
+}
+
+func qc(s string) string { return strconv.QuoteToASCII(ev.Clip(s, 120)) }
+
 func okErr(isErr bool, s string) string {
 	if isErr {
 		return "fails"
 	}
-	return "gives " + ev.Clip(s, 120)
+	return "gives " + qc(s)
 }
 
 // ---------------------------------------------------------------- generic script batch
@@ -594,7 +633,7 @@ func partC(r *ev.Run, stride int) {
 	ev.ParFor(len(small), func(i int) {
 		x := small[i]
 		o := observeObject("json", x)
-		r.Outcome("C1|json|" + class(x) + "|" + judgeRT(r, "object", "json", x, o))
+		r.Outcome("C1|json|" + judgeRT(r, "object", "json", x, o))
 	})
 	r.Eval(len(small))
 	nRT += int64(len(small))
@@ -611,7 +650,7 @@ func partC(r *ev.Run, stride int) {
 		})
 		for i, x := range vals {
 			o := decodeRtItems("json", res[4*i:4*i+4], pan[4*i:4*i+4])
-			r.Outcome("C1|json|" + class(x) + "|" + judgeRT(r, "script", "json", x, o))
+			r.Outcome("C1|json|" + judgeRT(r, "script", "json", x, o))
 		}
 		r.Eval(len(vals))
 		atomic.AddInt64(&nScript, int64(len(vals)))
@@ -632,7 +671,7 @@ func partC(r *ev.Run, stride int) {
 		var forScript []val
 		do := func(x val, k int) {
 			o := observeObject("json", x)
-			local["C1|json|d2|"+class(x)+"|"+judgeRT(r, "object", "json", x, o)] = struct{}{}
+			local["C1|json|d2|"+judgeRT(r, "object", "json", x, o)] = struct{}{}
 			cnt++
 			if (ci+k)%scriptStride == 0 {
 				forScript = append(forScript, x)
@@ -657,7 +696,7 @@ func partC(r *ev.Run, stride int) {
 			})
 			for i, x := range vals {
 				o := decodeRtItems("json", res[4*i:4*i+4], pan[4*i:4*i+4])
-				local["C1|json|d2|"+class(x)+"|"+judgeRT(r, "script", "json", x, o)] = struct{}{}
+				local["C1|json|d2|"+judgeRT(r, "script", "json", x, o)] = struct{}{}
 			}
 			cnt += len(vals)
 			atomic.AddInt64(&nScript, int64(len(vals)))
